@@ -26,9 +26,9 @@ PROPS = {
         "profiles": ["release", "checked"],
         "budget": {"quick": 14, "thorough": 240},
         "miri": {"thorough": {"engine": "c01", "args": ["--tiny"], "procs": 16, "features": "noalloc"}},
-        "claim": "Runtime monitoring of the real encoder+decoders over an enumerated-then-random workload: every finalized stream is decoded through all 8 reader front-ends (+verify_reader) and compared sample-for-sample with what was written, in the release profile and in a profile with overflow checks and debug assertions. Held = no refuting execution among those observed; the input space is sampled (all short lengths are enumerated).",
+        "claim": "Runtime monitoring of the real encoder+decoders over an enumerated-then-random workload: every finalized stream is decoded through all 8 reader front-ends (+verify_reader) and compared sample-for-sample with what was written, in the release profile and in a profile with overflow checks and debug assertions. Held = no refuting execution among those observed; the input space is sampled (all short lengths are enumerated). Thorough additionally runs 16 processes of tiny round trips under the Miri interpreter (undefined behaviour in the unsafe code of dependencies reached by the encoder/decoder would abort it).",
         "note": "trusts the PCM generators to stay in range and the harness's own byte (de)serialisation; the reference decoder only classifies coverage here",
-        "technique": "runtime monitoring: round-trip oracle over generated workloads, panic/CPU/alloc monitors, release + overflow-checked builds",
+        "technique": "runtime monitoring: round-trip oracle over generated workloads, panic/CPU/alloc monitors, release + overflow-checked builds; Miri interpreter on tiny round trips in the thorough tier",
         "design_ref": "DESIGN.md section 4 C01",
         "rule": ENC_RULE + "; oracle: all 8 reader front-ends + verify_reader must return exactly the written PCM/metadata",
         "quotas": {
@@ -67,9 +67,9 @@ PROPS.update({
         "profiles": ["release", "checked"],
         "budget": {"quick": 12, "thorough": 200},
         "fuzz": {"thorough": {"targets": [{"bin": "fz_decode", "corpus": "decode", "mode": "parity", "replay": "decode-parity", "seconds": 300}]}},
-        "claim": "The crate's decoders are run on streams produced by an independent structure-aware generator that chooses every syntactic alternative of the RFC 9639 frame grammar independently (each-choice coverage in the systematic part: every block-size/sample-rate/bit-depth coding, LPC order 1-32 x precision {1,7,15} x shift {0,15}, every Rice/Rice2 parameter, every escape width, wasted bits on each channel role, 33-bit side channels, 1-7 byte coded numbers, variable block size) and derives residuals from target PCM, so each stream is valid by construction and confirmed by the reference validator. All 8 reader front-ends (also over 1-byte-read sources) must return exactly the target PCM and verify_reader must report the MD5 status the generator arranged. Held = no divergence on the streams observed.",
+        "claim": "The crate's decoders are run on streams produced by an independent structure-aware generator that chooses every syntactic alternative of the RFC 9639 frame grammar independently (each-choice coverage in the systematic part: every block-size/sample-rate/bit-depth coding, LPC order 1-32 x precision {1,7,15} x shift {0,15}, every Rice/Rice2 parameter, every escape width, wasted bits on each channel role, 33-bit side channels, 1-7 byte coded numbers, variable block size) and derives residuals from target PCM, so each stream is valid by construction and confirmed by the reference validator. All 8 reader front-ends (also over 1-byte-read sources) must return exactly the target PCM and verify_reader must report the MD5 status the generator arranged. Held = no divergence on the streams observed. Thorough adds a coverage-guided stage: libFuzzer (ASan + overflow-checked build, 16 forks, checksum-preserving custom mutator, seeded from generator output) mutates streams and every input that the strict reference validator accepts as a valid stream (and whose metadata the crate's metadata reader accepts) goes through the same parity oracle; the evolved corpus is replayed through the release and checked builds and the number of reference-valid units is reported.",
         "note": "generator and reference validator (flacref) are the trusted base; a generator/validator disagreement is reported as inconclusive, never as a violation; constructs on which the RFC is debatable (empty first partition) are not generated",
-        "technique": "runtime monitoring: grammar-based valid-stream generator + reference model as oracle for the decoder, release + overflow-checked builds",
+        "technique": "runtime monitoring: grammar-based valid-stream generator + reference model as oracle for the decoder, release + overflow-checked builds; coverage-guided (libFuzzer) input selection with the same reference-model oracle in the thorough tier",
         "design_ref": "DESIGN.md section 4 C03, section 6",
         "rule": "a case = one generated stream (params, PCM, per-frame plan); systematic each-choice list (~600 streams) then seeded random plans; NON-TRIVIAL when the stream contains >= 1 FIXED/LPC subframe; DISTINCT by hash of the stream bytes",
         "quotas": {
@@ -92,9 +92,9 @@ PROPS.update({
         "budget": {"quick": 14, "thorough": 200},
         "fuzz": {"thorough": {"targets": [{"bin": "fz_decode", "corpus": "decode", "mode": "total", "replay": "decode-total", "seconds": 300}]}},
         "miri": {"thorough": {"engine": "c04", "args": ["--tiny"], "procs": 32, "features": "noalloc"}},
-        "claim": "Every decoding / frame-parsing entry point (3 file readers plain + seekable with seeks, raw stream reader, verify_reader, read_blocks, FrameIterator + Subframe::decode, generate_seektable, Frame/FrameHeader::read[_subset] at every sync-looking offset) is driven over hostile inputs while a panic monitor, a per-case CPU-time budget (20 s + 1 ms/byte, thread CPU time, enforced by an in-process watchdog), an allocation monitor (peak <= 48 MiB + 64 n, counting global allocator) and an output-volume bound watch it, in the release profile and with overflow checks + debug assertions (thorough adds an AddressSanitizer build). Inputs: generator malform knobs with valid CRCs (each-choice), CRC-repaired mutations of valid frames, STREAMINFO/SEEKTABLE that lie about valid frames, random and sync-rich bytes, spliced streams, mutated crate output, truncated fixtures. Held = no monitor fired on the executions observed.",
+        "claim": "Every decoding / frame-parsing entry point (3 file readers plain + seekable with seeks, raw stream reader, verify_reader, read_blocks, FrameIterator + Subframe::decode, generate_seektable, Frame/FrameHeader::read[_subset] at every sync-looking offset) is driven over hostile inputs while a panic monitor, a per-case CPU-time budget (20 s + 1 ms/byte, thread CPU time, enforced by an in-process watchdog), an allocation monitor (peak <= 48 MiB + 64 n, counting global allocator) and an output-volume bound watch it, in the release profile and with overflow checks + debug assertions (thorough adds an AddressSanitizer build). Inputs: generator malform knobs with valid CRCs (each-choice), CRC-repaired mutations of valid frames, STREAMINFO/SEEKTABLE that lie about valid frames, random and sync-rich bytes, spliced streams, mutated crate output, truncated fixtures. Thorough adds (i) an AddressSanitizer build of the same shards, (ii) a coverage-guided stage - libFuzzer on an ASan + overflow-checked build with 16 forks, a custom mutator that keeps frame checksums consistent three times out of four, seeded from generator output; the fuzz target runs the same entry-point driver and monitors, every artifact and the whole evolved corpus are replayed through the release and checked builds (counting allocator active) and only what those monitors confirm (or a deterministic sanitizer report) is a violation - and (iii) 32 Miri-interpreter processes over tiny CRC-valid malformed files. Held = no monitor fired on the executions observed.",
         "note": "the monitors see only paths the workload reaches; 'never hangs' is restated as the CPU budget; allocation bound constants are fixed in DESIGN.md",
-        "technique": "runtime monitoring + sanitizers: panic/CPU/allocation/output monitors over structure-aware malformed inputs; overflow-checked and ASan builds",
+        "technique": "runtime monitoring + sanitizers: panic/CPU/allocation/output monitors over structure-aware malformed inputs; overflow-checked and ASan builds; coverage-guided libFuzzer stage feeding the same monitors; Miri interpreter on tiny inputs",
         "design_ref": "DESIGN.md section 4 C04, section 3.2",
         "rule": "a case = one byte string driven through all 13 entry-point groups; classes: malform-knob, crc-repaired-mutation, lying-metadata, encoded-mutated, splice, sync-rich, random, fixture(-truncated); NON-TRIVIAL = every class except raw random bytes (they carry structure that reaches the parsers); DISTINCT by hash of the bytes",
         "quotas": {
@@ -265,9 +265,9 @@ PROPS.update({
         "fuzz": {"thorough": {"targets": [{"bin": "fz_meta", "corpus": "meta", "replay": "meta", "seconds": 200},
                                           {"bin": "fz_cue", "corpus": "cue", "replay": "cue", "seconds": 120}]}},
         "miri": {"thorough": {"engine": "c12", "args": ["--tiny"], "procs": 16, "features": "noalloc"}},
-        "claim": "BlockList::read, read_blocks, read_info and read_block::<T> are driven over hostile metadata sections (inner length/count fields of VORBIS_COMMENT and PICTURE pushed to 0/2^24/2^31/2^32-1, seek tables of illegal shapes, cue sheets with track/index numbers and offsets at their extremes incl. 255/256 and near u64::MAX, reserved block types, lying block-header lengths, truncations, bit-mutated crate-serialised lists, random bytes) under panic / CPU-time / allocation monitors, in release and with overflow checks; on EVERY list that parses every accessor is called (duration, decoded_len, channel_mask, total_samples, md5, cue sheet track_sample_ranges, track_byte_ranges, tracks, display, catalog_number, track_count, lead_in_samples, comment lookups). Cuesheet::parse runs on nearly-valid texts with one perturbed element and on hostile texts with extreme numbers; Picture::new runs on PNG/JPEG/GIF headers with every field at extremes, truncated and random bytes.",
+        "claim": "BlockList::read, read_blocks, read_info and read_block::<T> are driven over hostile metadata sections (inner length/count fields of VORBIS_COMMENT and PICTURE pushed to 0/2^24/2^31/2^32-1, seek tables of illegal shapes, cue sheets with track/index numbers and offsets at their extremes incl. 255/256 and near u64::MAX, reserved block types, lying block-header lengths, truncations, bit-mutated crate-serialised lists, random bytes) under panic / CPU-time / allocation monitors, in release and with overflow checks; on EVERY list that parses every accessor is called (duration, decoded_len, channel_mask, total_samples, md5, cue sheet track_sample_ranges, track_byte_ranges, tracks, display, catalog_number, track_count, lead_in_samples, comment lookups). Cuesheet::parse runs on nearly-valid texts with one perturbed element and on hostile texts with extreme numbers; Picture::new runs on PNG/JPEG/GIF headers with every field at extremes, truncated and random bytes. Thorough adds an AddressSanitizer build, two coverage-guided libFuzzer targets (metadata bytes incl. image sniffers; cue text) that run the same drivers and monitors in an ASan + overflow-checked build with artifacts and evolved corpus replayed through release/checked, and 16 Miri-interpreter processes over small sections, cue texts and image headers.",
         "note": "totality is observed, not proved; 'bounded allocation' uses the fixed bound 48 MiB + 64 n from DESIGN.md",
-        "technique": "runtime monitoring + sanitizers: panic/CPU/allocation monitors over grammar-extreme metadata, cue text and image headers; overflow-checked and ASan builds",
+        "technique": "runtime monitoring + sanitizers: panic/CPU/allocation monitors over grammar-extreme metadata, cue text and image headers; overflow-checked and ASan builds; coverage-guided libFuzzer stage feeding the same monitors; Miri interpreter on small inputs",
         "design_ref": "DESIGN.md section 4 C12",
         "rule": "a case = one byte string / cue text / image header; NON-TRIVIAL when the input parsed (so that accessors ran) or, for cue text and images, was accepted; DISTINCT by hash of the input",
         "quotas": {
@@ -369,9 +369,9 @@ PROPS.update({
         "budget": {"quick": 14, "thorough": 150},
         "miri": {"thorough": {"engine": "c18", "args": ["--tiny"], "procs": 32, "shards": 16, "features": "par,hooks,noalloc",
                               "pre": [{"profile": "release", "engine": "c18ref"}], "preemption": 0.05}},
-        "claim": "A seed-derived corpus (1, 2 and 3-8 channels; exhaustive and fast channel correlation; mid-side on/off; LPC on/off; block sizes 256-4096; all writer front-ends) is first encoded by the harness built WITHOUT the rayon feature, one hash per case. The harness built WITH flac-codec's rayon + verif-hooks features then encodes every case inside rayon pools of 1, 2, 3, 4, 8 and 16 threads, repeatedly, with seeded 0-200 us delays injected at the start of every parallel task, and requires byte-identical output. The hook event log (task kind, begin/end, thread, global order taken under the log's lock) is checked after every encode: frames never overlap, every task begin has its end on the same thread, the number of subframe tasks per frame is the expected one, and the evidence reports how many frames had truly overlapping candidate tasks on different threads and how many distinct interleaving signatures were observed. Thorough adds a ThreadSanitizer build (-Zbuild-std) of the same workload (any report = violation). Schedules are observed and perturbed, not enumerated.",
+        "claim": "A seed-derived corpus (1, 2 and 3-8 channels; exhaustive and fast channel correlation; mid-side on/off; LPC on/off; block sizes 256-4096; all writer front-ends) is first encoded by the harness built WITHOUT the rayon feature, one hash per case. The harness built WITH flac-codec's rayon + verif-hooks features then encodes every case inside rayon pools of 1, 2, 3, 4, 8 and 16 threads, repeatedly, with seeded 0-200 us delays injected at the start of every parallel task, and requires byte-identical output. The hook event log (task kind, begin/end, thread, global order taken under the log's lock) is checked after every encode: frames never overlap, every task begin has its end on the same thread, the number of subframe tasks per frame is the expected one, and the evidence reports how many frames had truly overlapping candidate tasks on different threads and how many distinct interleaving signatures were observed. Thorough adds a ThreadSanitizer build (-Zbuild-std) of the same workload (any report = violation) and 32 Miri processes (data-race detector + randomised scheduler with its own seed per process, preemption rate 5%) encoding a tiny corpus in 2- and 3-thread pools, compared with the serial hashes and checked by the same trace monitor. Schedules are observed and perturbed, not enumerated.",
         "note": "all schedules cannot be enumerated for a work-stealing pool; reach comes from pool sizes x repetitions x injected delays x 16 concurrently running shard processes; the serial reference comes from a separate build of the same source tree",
-        "technique": "runtime monitoring: differential check against the serial build under schedule perturbation, trace-specification checker over the hook event log, ThreadSanitizer in the thorough tier",
+        "technique": "runtime monitoring: differential check against the serial build under schedule perturbation, trace-specification checker over the hook event log; ThreadSanitizer build and Miri (race detector, seeded schedules) in the thorough tier",
         "design_ref": "DESIGN.md section 4 C18, section 3.4",
         "rule": "a case = (corpus case, pool size, repetition, perturbation seed); NON-TRIVIAL when the parallel bytes were compared with the serial hash; DISTINCT by (case, pool size, repetition, pass)",
         "quotas": {
